@@ -70,7 +70,7 @@ def gen_parsed_spec(rng, idx=None):
     cfg = {"test_timeout": 1000}
     mixed = idx is not None and idx % len(SELECTIONS) == len(SELECTIONS) - 1
     if rng.random() < 0.4:
-        cfg["max_tries"] = rng.choice([1, 2, 2, 3])
+        cfg["max_tries"] = rng.choice([1, 2, 2, 3, 1, 2, 2, 3, 0])
         if rng.random() < 0.3:
             cfg["max_concurrent_tries"] = rng.choice([1, 1, 2])
     if rng.random() < 0.5:
